@@ -262,6 +262,8 @@ structure JoinSpec where
   kind : JoinKind
   lhs : List (Option Nat)
   rhs : List (Option Nat)
+  /-- number of columns of the join table's header (0 without a header): the LEFT JOIN null record is at least that wide -/
+  nullWidth : Nat := 0
 
 inductive Distinct | no | yes | count
   deriving DecidableEq, Repr
@@ -314,6 +316,9 @@ def JoinMap.build (rhs : List (Option Nat)) : Table → Nat → JoinMap → Exce
     let key ← rhsKey rhs nr fields
     JoinMap.build rhs rest nr
       { entries := addJoinEntry jm.entries key (nr, fields.length, fields), maxLen := max jm.maxLen fields.length }
+
+/-- `max_record_len = max(max_record_len, len(join_header))` after the build -/
+def JoinMap.widen (w : Nat) (jm : JoinMap) : JoinMap := { jm with maxLen := max jm.maxLen w }
 
 def JoinMap.get (jm : JoinMap) (key : List Val) : List (Nat × Nat × Row) :=
   ((jm.entries.find? (fun e => e.1 = key)).map (·.2)).getD []
@@ -530,7 +535,7 @@ structure RunResult where
 /-- `rbql.query` on list tables: build the join map, run the loop, finish the writers -/
 def run (q : SemQuery) (A B : Table) (sink : Sink := {}) : RunResult :=
   let jmRes : Except EngErr JoinMap := match q.join with
-    | some js => JoinMap.build js.rhs B 0 {}
+    | some js => (JoinMap.build js.rhs B 0 {}).map (JoinMap.widen js.nullWidth)
     | none => .ok {}
   if q.groupBy.isSome && (q.orderBy.isSome || q.isUpdate) then
     -- detected from the query text, before anything runs
